@@ -6,6 +6,8 @@ Conservation, FitsWidth, Greedy, liveness Terminates; every terminal state carri
 Binding: every paragraph is laid out with the metric-exact font weasyprint.otf (1 em per glyph) under the pango engine and
 the text, y, height, first-glyph x and content width of every line box must be the specification's; the plain families are
 laid out a second time under the go-text engine.
+Variants: a paragraph of the same font with another line-height earlier in the document (line heights must not leak through
+caches); a page two lines high (the paragraph continues on following pages: text-indent only on the very first line).
 """
 import os
 from vlib import MachineryError
